@@ -40,6 +40,13 @@ Theorem C29_rest_is_reached : forall na disc, na || disc = true -> forall n tr l
 Proof. exact rest_is_reached_from_init. Qed.
 Print Assumptions C29_rest_is_reached.
 
+(* a run that the pool itself cannot extend has ended in a final state; with termination: under weak fairness (no
+   thread of the pool that can take a step is left out for ever) every accepted task is run and every wait() returns *)
+Theorem C29_maximal_runs_end_final : forall na disc, na || disc = true -> forall n tr ls tr' ls', n >= 1 ->
+  lrun na disc (linit n) tr ls -> lrun na disc ls tr' ls' -> ~ can_progress na ls' -> final ls'.
+Proof. exact maximal_runs_end_final. Qed.
+Print Assumptions C29_maximal_runs_end_final.
+
 (* no lost wake-up: a worker sleeps while `stop || !tasks.empty()` holds only if the notification is still to be issued
    or another worker is awake; a call of wait() never sleeps on a condition that holds *)
 Theorem C29_no_lost_wakeup : forall na disc, na || disc = true -> forall n tr ls, lrun na disc (linit n) tr ls ->
